@@ -104,24 +104,9 @@ inline void one(T t, U u, bool verbose = false)
         std::printf("%s %s : eq=%d ne=%d lt=%d gt=%d le=%d ge=%d\n", s128(a).c_str(), s128(b).c_str(), r[0], r[1], r[2], r[3], r[4], r[5]);
 }
 
-// usable in constant expressions: every function, every pair (checked at compile time)
-template <class T, class U>
-struct ce
-{
-    static constexpr bool a = xtl::cmp_equal(T(1), U(1));
-    static constexpr bool b = xtl::cmp_not_equal(T(1), U(2));
-    static constexpr bool c = xtl::cmp_less(T(1), U(2));
-    static constexpr bool d = xtl::cmp_greater(T(3), U(2));
-    static constexpr bool e = xtl::cmp_less_equal(T(2), U(2));
-    static constexpr bool f = xtl::cmp_greater_equal(T(2), U(2));
-    static_assert(a && b && c && d && e && f, "constant evaluation");
-    static_assert(noexcept(xtl::cmp_less(T(1), U(2))), "noexcept");
-};
-
 template <class T, class U>
 void pair_run()
 {
-    (void)sizeof(ce<T, U>);
     const int bt = int(sizeof(T) * 8), bu = int(sizeof(U) * 8);
     long long before = g_eval;
     if (bt + bu <= g_full_bits)
